@@ -29,13 +29,37 @@ theorem refinement {S : Sys} {init : List Chunk → Prop} {s0 s s' : State}
 /-- C03 (no lost update): the atomic Put replaces the live content **only** when the hub's current
 content hash equals the hash the client said it last saw. -/
 theorem spec_commits_only_on_match (S : Sys) (m : Path → Option (List Chunk)) (r : Req)
-    (h : (m r.dst).map S.H ≠ r.expected) (hne : S.cname r.dst r.declared ≠ r.dst) :
-    specPut S m r r.dst = m r.dst ∧ specPut S m r (S.cname r.dst r.declared) = some r.chunks := by
+    (h : (m r.dst).map S.H ≠ r.expected) (hne : S.cname m r.dst r.declared ≠ r.dst) :
+    specPut S m r r.dst = m r.dst ∧ specPut S m r (S.cname m r.dst r.declared) = some r.chunks := by
   unfold specPut
   rw [if_neg h]
   constructor
   · simp [upd, Ne.symm hne]
   · simp [upd]
+
+/-- C03 (no acknowledged or conflict-preserved content vanishes): the atomic Put never removes content a client
+can see — a path keeps what it held, unless it is the destination and the compare matched (the acknowledged
+commit that replaces it), or it is the conflict-copy name, which the repaired hub (D13) picks free or already
+holding content of the same hash (`hfree`, established under the commit lock by `handle_put`; the sequential
+model's `Hub.ccPick` is that loop). -/
+theorem spec_put_preserves_content (S : Sys) (m : Path → Option (List Chunk)) (r : Req)
+    (hfree : m (S.cname m r.dst r.declared) = none ∨ (m (S.cname m r.dst r.declared)).map S.H = some (S.H r.chunks))
+    (q : Path) (c0 : List Chunk) (h : m q = some c0) :
+    specPut S m r q = some c0 ∨ (q = r.dst ∧ (m r.dst).map S.H = r.expected) ∨
+    (q = S.cname m r.dst r.declared ∧ S.H c0 = S.H r.chunks) := by
+  unfold specPut
+  split
+  · next he =>
+    by_cases hq : q = r.dst
+    · exact Or.inr (Or.inl ⟨hq, he⟩)
+    · left; simp [upd, hq, h]
+  · by_cases hq : q = S.cname m r.dst r.declared
+    · right; right
+      refine ⟨hq, ?_⟩
+      rcases hfree with e | e
+      · rw [← hq, h] at e; cases e
+      · rw [← hq, h] at e; exact Option.some.inj e
+    · left; simp [upd, hq, h]
 
 /-- C03 (acknowledged commit is live): when the hashes match, the Put's bytes are the live content. -/
 theorem spec_commit_is_live (S : Sys) (m : Path → Option (List Chunk)) (r : Req)
